@@ -7,11 +7,14 @@ Trace == ndJsonDeserialize("c09obs.ndjson")
 VARIABLE l
 Init == l = 1
 Next == l <= Len(Trace) /\ l' = l + 1
-Explained(r) == LET d == DayOf(r.now) IN
+(* with a clock that moves while the span is computed (fields now .. now2) the  *)
+(* "current day" is any day the clock was in, but begin and end must belong to  *)
+(* ONE day: the span is the span of its own begin day                           *)
+Days(r) == IF "now2" \in DOMAIN r THEN DayOf(r.now)..DayOf(r.now2) ELSE {DayOf(r.now)}
+Explained(r) ==
     IF r.byte = 0 THEN ~r.ok
     ELSE /\ r.ok
-         /\ r.begin = Begin(d)
-         /\ r.end = End(d, SettingOfByte(r.byte))
+         /\ \E d \in Days(r) : r.begin = Begin(d) /\ r.end = End(d, SettingOfByte(r.byte))
 AllExplained == l <= Len(Trace) => Explained(Trace[l])
 Accepted == TLCGet("stats").diameter = Len(Trace) + 1
 =============================================================================
